@@ -422,19 +422,22 @@ Proof.
   destruct (contained (c_var c) (w_fs w) f np) as [[|]|] eqn:Ct.
   2:{ exists w. split; [apply changes_below_refl|]. right. eexists. intros rest. cbn [first_pass]. rewrite Hc, G, Pe, Ct. reflexivity. }
   2:{ exists w. split; [apply changes_below_refl|]. right. eexists. intros rest. cbn [first_pass]. rewrite Hc, G, Pe, Ct. reflexivity. }
+  destruct (dest_parent_test (c_var c) (w_fs w) f np) as [[|]|] eqn:Dc.
+  2:{ exists w. split; [apply changes_below_refl|]. right. eexists. intros rest. cbn [first_pass]. rewrite Hc, G, Pe, Ct, Dc. reflexivity. }
+  2:{ exists w. split; [apply changes_below_refl|]. right. eexists. intros rest. cbn [first_pass]. rewrite Hc, G, Pe, Ct, Dc. reflexivity. }
   destruct (parents_contained (w_fs w) f np) as [[|]|] eqn:Pc.
-  2:{ exists w. split; [apply changes_below_refl|]. right. eexists. intros rest. cbn [first_pass]. rewrite Hc, G, Pe, Ct, Pc. reflexivity. }
-  2:{ exists w. split; [apply changes_below_refl|]. right. eexists. intros rest. cbn [first_pass]. rewrite Hc, G, Pe, Ct, Pc. reflexivity. }
+  2:{ exists w. split; [apply changes_below_refl|]. right. eexists. intros rest. cbn [first_pass]. rewrite Hc, G, Pe, Ct, Dc, Pc. reflexivity. }
+  2:{ exists w. split; [apply changes_below_refl|]. right. eexists. intros rest. cbn [first_pass]. rewrite Hc, G, Pe, Ct, Dc, Pc. reflexivity. }
   destruct (source_contained (w_fs w) f) as [[|]|] eqn:Sc.
-  2:{ exists w. split; [apply changes_below_refl|]. right. eexists. intros rest. cbn [first_pass]. rewrite Hc, G, Pe, Ct, Pc, Sc. reflexivity. }
-  2:{ exists w. split; [apply changes_below_refl|]. right. eexists. intros rest. cbn [first_pass]. rewrite Hc, G, Pe, Ct, Pc, Sc. reflexivity. }
+  2:{ exists w. split; [apply changes_below_refl|]. right. eexists. intros rest. cbn [first_pass]. rewrite Hc, G, Pe, Ct, Dc, Pc, Sc. reflexivity. }
+  2:{ exists w. split; [apply changes_below_refl|]. right. eexists. intros rest. cbn [first_pass]. rewrite Hc, G, Pe, Ct, Dc, Pc, Sc. reflexivity. }
   destruct (renamer c w (pf_dir f) (pf_rel f) np false) as [w1 e1] eqn:Rn.
   exists w1. split; [exact (confined_renamer_step_all_modes_any_source _ _ _ _ _ _ Hv Hc Ct Pc Sc Rn)|].
   destruct e1 as [ex|].
   - destruct (is_file_exists ex) eqn:Fe.
-    + left. eexists. intros rest. cbn [first_pass]. rewrite Hc, G, Pe, Ct, Pc, Sc, Rn, Fe. reflexivity.
-    + right. exists ex. intros rest. cbn [first_pass]. rewrite Hc, G, Pe, Ct, Pc, Sc, Rn, Fe. reflexivity.
-  - left. exists bl. intros rest. cbn [first_pass]. rewrite Hc, G, Pe, Ct, Pc, Sc, Rn. reflexivity.
+    + left. eexists. intros rest. cbn [first_pass]. rewrite Hc, G, Pe, Ct, Dc, Pc, Sc, Rn, Fe. reflexivity.
+    + right. exists ex. intros rest. cbn [first_pass]. rewrite Hc, G, Pe, Ct, Dc, Pc, Sc, Rn, Fe. reflexivity.
+  - left. exists bl. intros rest. cbn [first_pass]. rewrite Hc, G, Pe, Ct, Dc, Pc, Sc, Rn. reflexivity.
 Qed.
 
 (* ---------- non-vacuity: path mode through a symlinked directory, with ".." and two new directories ---- *)
